@@ -256,6 +256,41 @@ pub fn run(ctx: &Ctx, acc: &mut Acc) {
     while ctx.time_left() && i < max_cases {
         let seed = ctx.case_seed(i);
         i += 1;
+        if i % 3 == 0 {
+            // directly generated AxCut program, linearized by the real linearize()
+            let (prog, args) = super::middle::axgen_case(seed, prop != "C08");
+            if crate::ty_axcut::check_named(&prog).is_err() {
+                acc.infra("gen_axcut produced an ill-typed program (generator defect)");
+                continue;
+            }
+            let Ok(linear) = pipeline::linearize(prog) else {
+                acc.discard("linearization failed (C05's business)");
+                continue;
+            };
+            if crate::ty_axcut::check_linear(&linear).is_err() {
+                acc.discard("linearized program ill-typed (C05's business)");
+                continue;
+            }
+            acc.count("directly_generated_axcut_programs");
+            let mut any = false;
+            for a in args.iter().take(2) {
+                for isa in &isas {
+                    acc.evaluations += 1;
+                    let before = acc.violations.len();
+                    let c = LinCase { linear: &linear, args: a, origin: format!("gen_axcut seed={seed}"), src: None };
+                    if judge_linear(prop, *isa, acc, &c, &cfg) {
+                        any = true;
+                    }
+                    for v in acc.violations.iter_mut().skip(before) {
+                        v.replay.set("axgen_seed", J::s(seed.to_string()));
+                    }
+                }
+            }
+            if any {
+                acc.nontrivial(seed);
+            }
+            continue;
+        }
         let case = gen_fun_case(seed, EffectMode::Anywhere, |p, rng| {
             if matches!(prop, "C09" | "C10") {
                 p.prints = 1;
@@ -305,6 +340,17 @@ pub fn replay(prop: &str, payload: &J, acc: &mut Acc) {
     }
     if payload.get("kind").and_then(|k| k.as_str()) == Some("placement") {
         super::matrix::replay(payload, acc);
+        return;
+    }
+    if let Some(seed) = payload.get("axgen_seed").and_then(|s| s.as_str()).and_then(|s| s.parse::<u64>().ok()) {
+        let (prog, _) = super::middle::axgen_case(seed, prop != "C08");
+        let args = args_from_json(payload.get("args"));
+        let isa = payload.get("isa").and_then(|s| s.as_str()).and_then(Isa::from_name).unwrap_or(Isa::X86);
+        if let Ok(linear) = pipeline::linearize(prog) {
+            acc.evaluations += 1;
+            let cfg = EmuConfig { enforce_shape: prop != "C10", ..EmuConfig::default() };
+            judge_linear(prop, isa, acc, &LinCase { linear: &linear, args: &args, origin: "replay".into(), src: None }, &cfg);
+        }
         return;
     }
     let Some(src) = payload.get("src").and_then(|s| s.as_str()) else {
